@@ -235,7 +235,7 @@ def stmt_term(m):
 
 
 def run(R, only=None):
-    R.prove()
+    R.prove(extra=["Corr/C09.vo"])
     build_harness()
     n = 200 if R.tier == "quick" else 3000
     cases = only or ([gen_case(R.rng, R.tier) for _ in range(n)] + [gen_held(R.rng) for _ in range(60 if R.tier == "quick" else 600)])
@@ -335,6 +335,27 @@ def run(R, only=None):
     if failing:
         i = sorted(failing)[0]
         R.correspondence_broken("C10 the serial order found by the search is accepted by the Coq specification", json.dumps({"sessions_case": usable[i]})[:3000])
+    # ---- the protocol model of the serialisability theorem against the engine: C09's schedules (compactor held at its points,
+    #      INSERTs and DELETE tasks in between), replayed as the model's events; the serial execution of the ghost log must give
+    #      the rows the engine returns
+    if not only:
+        from . import c09
+        hs = [c09.gen_schedule(R.rng, R.tier) for _ in range(30 if R.tier == "quick" else 300)]
+        for h in hs:
+            h["script"] = [tuple(x) for x in h["script"]]
+        pouts = run_harness("sql", [{"engine": "disk", "atomic": True, "steps": h["steps"]} for h in hs], jobs=8, timeout=3000)
+        pterms, powner = [], []
+        for h, o in zip(hs, pouts):
+            for t, hh, tab in c09.analyse(R, h, o):
+                pterms.append(t)
+                powner.append((hh, tab))
+        pfail = coq_eval("C10p", c09.HEADER, pterms, per_file=40)
+        if pfail:
+            i = sorted(pfail)[0]
+            R.correspondence_broken(f"C10 protocol model, table {powner[i][1]}: " + {1: "the model accepts the observed event sequence", 2: "final rows = model",
+                                    3: "rows of the acknowledged deletes = model", 4: "final rows = serial execution of the ghost log"}[pfail[i][0]],
+                                    json.dumps({"schedule": powner[i][0]})[:3000])
+        stats["protocol_schedules"] = len(pterms)
     R.coverage.update({
         "evaluations": len(cases), "distinct_nontrivial": stats["explained"],
         "rule": "2-3 sessions of 2-5 statements each over two tables (CREATE / DROP TABLE of the same names, INSERT of fresh keys, DELETE by key list, SELECT "
@@ -344,8 +365,9 @@ def run(R, only=None):
                 "is searched (memoised DFS) and validated inside Coq",
         "samples": [cases[0]["sessions"]], "outcomes": stats, "model_vs_impl_disagreements": len(failing),
     })
-    R.assumptions += ["serializability is decided for each observed execution (certificate checking); no theorem quantifies over the engine's own schedules "
-                      "beyond C08 / C09's protocols; the multi-threaded runs are a sample of real preemption", "a statement that returned an error other "
+    R.assumptions += ["statement results across sessions and tables are decided for each observed execution (certificate checking); final-state "
+                      "serialisability of the per-table protocol is proved for every interleaving of its events (Model/Conc.v, event granularity: no preemption "
+                      "inside a commit); the multi-threaded runs are a sample of real preemption", "a statement that returned an error other "
                       "than a catalog error is unacknowledged and must have had no effect"]
 
 
